@@ -261,15 +261,20 @@ impl Model for M {
       next.push(Ev::Spdp(p));
       if known[p as usize] {
         next.push(Ev::Timeout(p));
+      }
+      // an SPDP dispose is processed whether or not the participant is known at the moment (the SPDP reader is
+      // stateless); it matters when endpoints of that participant are known or parked
+      if known[p as usize] || st.iter().any(|(e, s)| e.0 == p && *s != St::Absent) || parked.iter().any(|e| e.0 == p) {
         next.push(Ev::PDispose(p));
       }
     }
     for (e, _, _) in &eps {
       if e.0 < self.nparts {
-        // SEDP data (announcements and disposes alike) only arrives from participants that are currently known:
-        // the built-in readers have no proxy for the others
-        if known[e.0 as usize] {
-          next.push(Ev::Announce(e.0, e.1, e.2));
+        // SEDP data also arrives from participants that are not (or no longer) known: the built-in readers accept
+        // discovery DATA from writers they have no proxy for (Reader::process_received_data), and DiscoveryDB
+        // stores it ("we might not know about the participant yet")
+        next.push(Ev::Announce(e.0, e.1, e.2));
+        if known[e.0 as usize] || st[e] != St::Absent || parked.contains(e) {
           next.push(Ev::Dispose(e.0, e.1, e.2));
         }
       }
@@ -287,7 +292,7 @@ impl Model for M {
 
 fn model(tier: &str) -> (M, BfsCfg) {
   let t = tier == "thorough";
-  (M { nparts: 2 }, BfsCfg { max_depth: if t { 10 } else { 7 }, threads: 16, wall_cap_s: if t { 2400.0 } else { 45.0 }, state_cap: 20_000_000, merge: true })
+  (M { nparts: 2 }, BfsCfg { max_depth: if t { 7 } else { 5 }, threads: 16, wall_cap_s: if t { 2400.0 } else { 55.0 }, state_cap: 20_000_000, merge: true })
 }
 
 pub fn replay(doc: &serde_json::Value) -> i32 {
